@@ -6,7 +6,7 @@ import struct
 
 from ..cfg import CFG
 from ..core import (AnalysisError, DefRef, NotConst, PartialRef, Ref, call_name, calls_in, dotted, func_params, get_kw, norm,
-                    walk_no_nested)
+                    walk_no_nested, expand_aliases, single_assign_aliases)
 from .c01 import check_pack_exclusion, tuple_arity
 from .packer_common import PACK_ROLE_OF_CLASS, pack_branches, unpack_branches
 
@@ -187,8 +187,11 @@ def run(ctx):
     ret = [r for r in walk_no_nested(ch) if isinstance(r, ast.Return)]
     ok = False
     why = "return is not int.from_bytes(<digest>[:4], byteorder='big')"
-    if len(ret) == 1 and isinstance(ret[0].value, ast.Call) and norm(ret[0].value.func) == "int.from_bytes":
-        c = ret[0].value
+    cal = single_assign_aliases(ch)
+    rv = expand_aliases(ret[0].value, {k: v for k, v in cal.items() if not _is_text(v)}) if len(ret) == 1 and ret[0].value is not None else None
+    hashed = None
+    if isinstance(rv, ast.Call) and norm(rv.func) == "int.from_bytes":
+        c = rv
         bo = get_kw(c, "byteorder") or (c.args[1] if len(c.args) > 1 else None)
         sub = c.args[0]
         if bo is not None and _fold(prog, base, bo) == "big" and isinstance(sub, ast.Subscript) and isinstance(sub.slice, ast.Slice) \
@@ -197,16 +200,14 @@ def run(ctx):
             if isinstance(dg, ast.Call) and isinstance(dg.func, ast.Attribute) and dg.func.attr == "digest" and isinstance(dg.func.value, ast.Call):
                 h = dg.func.value
                 r = prog.resolve_expr(base, h.func)
-                if isinstance(r, Ref) and r.name == "hashlib.sha256":
+                if isinstance(r, Ref) and r.name == "hashlib.sha256" and len(h.args) == 1:
                     ok = True
                     hashed = h.args[0]
                 else:
                     why = f"hash function is {r}"
     ctx.check(ok, "R2.2", "calc_descriptor_hash:construction", why, ch, "sha256 -> digest()[:4] -> big-endian int", key="R2.2:calc_descriptor_hash:construction")
     if ok:
-        # hashed = data.encode(); data = name + "".join(f"{n}{t}" for t, n in fields)
-        src = hashed.func.value if isinstance(hashed, ast.Call) and isinstance(hashed.func, ast.Attribute) and hashed.func.attr == "encode" else hashed
-        order = _hash_input_order(_accumulated_text(ch, src), p_name, p_fields, ch)
+        order = hash_input_order(ch, hashed, p_name, p_fields)
         ctx.check(order == ["name", "field.name", "field.type"], "R2.2", "calc_descriptor_hash:input-order",
                   f"the hashed text is composed as {order}; the format hashes the descriptor name, then for each field its name followed by its type", ch,
                   "name, then per field: name + type", key="R2.2:calc_descriptor_hash:input-order")
@@ -316,108 +317,19 @@ def _fold(prog, module, e):
         raise AnalysisError(f"constant {norm(e)} does not fold ({ex})")
 
 
-def _accumulated_text(fn, src):
-    """The expression a text variable holds: its initial assignment, followed by `v += x` in loops (kept as AugAssign markers)."""
-    if not isinstance(src, ast.Name):
-        return src
-    name = src.id
-    parts = []
-    for st in ast.walk(fn):
-        if isinstance(st, ast.Assign) and len(st.targets) == 1 and norm(st.targets[0]) == name:
-            parts.append(("init", st.value, st))
-        elif isinstance(st, ast.AugAssign) and norm(st.target) == name and isinstance(st.op, ast.Add):
-            parts.append(("aug", st.value, st))
-    parts.sort(key=lambda p: p[2].lineno)
-    if len(parts) == 1 and parts[0][0] == "init":
-        return parts[0][1]
-    return parts
+def _is_text(v) -> bool:
+    """Local that holds (part of) the hashed text rather than a hash object / digest."""
+    return isinstance(v, (ast.JoinedStr, ast.BinOp, ast.Constant, ast.List, ast.ListComp, ast.GeneratorExp)) or (
+        isinstance(v, ast.Call) and isinstance(v.func, ast.Attribute) and v.func.attr in ("join", "format"))
 
 
-def _hash_input_order(src, p_name, p_fields, fn=None):
-    if isinstance(src, list):
-        # accumulation form:  data = name ; for t, n in fields: data += n + t
-        out = []
-        for kind, val, st in src:
-            if kind == "init":
-                out += _hash_input_order(val, p_name, p_fields)
-            else:
-                loop = getattr(st, "_parent", None)
-                while loop is not None and not isinstance(loop, ast.For):
-                    loop = getattr(loop, "_parent", None)
-                if loop is not None and dotted(loop.iter) == p_fields and isinstance(loop.target, ast.Tuple) and len(loop.target.elts) == 2:
-                    t_var, n_var = [norm(x) for x in loop.target.elts]
-                    seq = []
+def hash_input_order(fn, hashed, p_name, p_fields):
+    """Order of the parts of the text that is hashed (the argument of sha256, `.encode()` stripped)."""
+    from ..strsym import flatten_order, text_structure
 
-                    def fl(e):
-                        if isinstance(e, ast.BinOp) and isinstance(e.op, ast.Add):
-                            fl(e.left)
-                            fl(e.right)
-                        elif isinstance(e, ast.JoinedStr):
-                            for v in e.values:
-                                if isinstance(v, ast.FormattedValue):
-                                    seq.append(norm(v.value))
-                                elif isinstance(v, ast.Constant) and v.value:
-                                    seq.append(f"literal:{v.value!r}")
-                        elif isinstance(e, ast.Constant) and isinstance(e.value, str):
-                            if e.value:
-                                seq.append(f"literal:{e.value!r}")
-                        else:
-                            seq.append(norm(e))
-                    fl(val)
-                    out += ["field.name" if x == n_var else "field.type" if x == t_var else x for x in seq]
-                else:
-                    out.append(norm(val))
-        return out
-    """Order of the parts of the hashed text: ['name', 'field.name', 'field.type'] for  name + ''.join(f'{n}{t}' for t, n in fields)."""
-    parts = []
+    src = hashed
+    if isinstance(src, ast.Call) and isinstance(src.func, ast.Attribute) and src.func.attr == "encode":
+        src = src.func.value
+    return flatten_order(text_structure(fn, src), p_name, p_fields)
 
-    def flatten(e):
-        if isinstance(e, ast.BinOp) and isinstance(e.op, ast.Add):
-            flatten(e.left)
-            flatten(e.right)
-        else:
-            parts.append(e)
 
-    flatten(src)
-    out = []
-    for p in parts:
-        if isinstance(p, ast.Name) and p.id == p_name:
-            out.append("name")
-        elif isinstance(p, ast.Call) and isinstance(p.func, ast.Attribute) and p.func.attr == "join" and p.args:
-            g = p.args[0]
-            if isinstance(g, (ast.GeneratorExp, ast.ListComp)) and len(g.generators) == 1 and dotted(g.generators[0].iter) == p_fields \
-                    and isinstance(g.generators[0].target, ast.Tuple) and len(g.generators[0].target.elts) == 2:
-                t_var, n_var = [norm(x) for x in g.generators[0].target.elts]  # fields are (type, name) tuples
-                sep = p.func.value
-                if not (isinstance(sep, ast.Constant) and sep.value == ""):
-                    out.append(f"separator:{norm(sep)}")
-                elt = g.elt
-                seq = []
-                if isinstance(elt, ast.JoinedStr):
-                    for v in elt.values:
-                        if isinstance(v, ast.FormattedValue):
-                            seq.append(norm(v.value))
-                        elif isinstance(v, ast.Constant) and v.value:
-                            seq.append(f"literal:{v.value!r}")
-                elif isinstance(elt, ast.BinOp):
-                    sub = []
-
-                    def fl(e):
-                        if isinstance(e, ast.BinOp) and isinstance(e.op, ast.Add):
-                            fl(e.left)
-                            fl(e.right)
-                        else:
-                            sub.append(norm(e))
-                    fl(elt)
-                    seq = sub
-                else:
-                    seq = [norm(elt)]
-                for s in seq:
-                    out.append("field.name" if s == n_var else "field.type" if s == t_var else s)
-            else:
-                out.append(norm(p))
-        elif isinstance(p, ast.Constant) and p.value == "":
-            continue
-        else:
-            out.append(norm(p))
-    return out
